@@ -28,21 +28,26 @@ def primHash (P : Params) (h : Hash) : Prim → Value → Hash
   | .f64, .f64 a => addFloat64 P h (UInt64.ofNat a)
   | _, _ => h
 
-/-- `GenericMap(left, right, eq)`: same size, every left key present on the right with an equal value -/
-def mapEq (eq : Value → Value → Bool) (l r : List (Bytes × Value)) : Bool :=
-  l.length == r.length && l.all (fun kv => match r.lookup kv.1 with | some w => eq kv.2 w | none => false)
-
-/-- `GenericArray`: same length, pointwise -/
-def arrEq (eq : Value → Value → Bool) : List Value → List Value → Bool
-  | [], [] => true
-  | a :: as, b :: bs => eq a b && arrEq eq as bs
-  | _, _ => false
-
 /-- optional presence and value (`*Pointer` helpers / nil checks) -/
 def optEqV (eq : Value → Value → Bool) : Option Value → Option Value → Bool
   | none, none => true
   | some a, some b => eq a b
   | _, _ => false
+
+/-- generated `Equals` of a named type, given the equality of field values -/
+def namedEq (env : Env) (eqf : Ty → Value → Value → Bool) (n : TName) (a b : Value) : Bool :=
+  match env.find n, a, b with
+  | some (.typeref p), a, b => primEq p a b
+  | some (.enum syms), .enum x, .enum y =>
+    -- `c.IsValid() && other.IsValid() && c == other`
+    decide (1 ≤ x ∧ x ≤ syms.length) && decide (1 ≤ y ∧ y ≤ syms.length) && x == y
+  | some (.fixed _), .fixed x, .fixed y => x == y
+  | some (.record _ _), .record xs, .record ys =>
+    (allFields env (includeFuel env) n).all (fun fld =>
+      optEqV (eqf fld.ty) (xs.lookup fld.name) (ys.lookup fld.name))
+  | some (.union _ members), .union xs, .union ys =>
+    members.all (fun m => optEqV (eqf m.2) (xs.lookup m.1) (ys.lookup m.1))
+  | _, _, _ => false
 
 /-- generated `Equals` at a type -/
 def valueEq (env : Env) : Nat → Ty → Value → Value → Bool
@@ -50,24 +55,41 @@ def valueEq (env : Env) : Nat → Ty → Value → Value → Bool
   | f + 1, ty, a, b =>
     match ty, a, b with
     | .prim p, a, b => primEq p a b
-    | .arr t, .arr xs, .arr ys => arrEq (valueEq env f t) xs ys
-    | .map t, .map xs, .map ys => mapEq (valueEq env f t) xs ys
-    | .ref n, a, b =>
-      (match env.find n, a, b with
-      | some (.typeref p), a, b => primEq p a b
-      | some (.enum syms), .enum x, .enum y =>
-        -- `c.IsValid() && other.IsValid() && c == other`
-        decide (1 ≤ x ∧ x ≤ syms.length) && decide (1 ≤ y ∧ y ≤ syms.length) && x == y
-      | some (.fixed _), .fixed x, .fixed y => x == y
-      | some (.record _ _), .record xs, .record ys =>
-        (allFields env (includeFuel env) n).all (fun fld =>
-          optEqV (valueEq env f fld.ty) (xs.lookup fld.name) (ys.lookup fld.name))
-      | some (.union _ members), .union xs, .union ys =>
-        members.all (fun m => optEqV (valueEq env f m.2) (xs.lookup m.1) (ys.lookup m.1))
-      | _, _, _ => false)
+    | .arr t, .arr xs, .arr ys => genericArray (valueEq env f t) xs ys
+    | .map t, .map xs, .map ys => genericMap (valueEq env f t) xs ys
+    | .ref n, a, b => namedEq env (valueEq env f) n a b
     | _, _, _ => false
 
-mutual
+/-- one field (or union member) of a struct: hashed if present -/
+def hashSlot (hf : Ty → Hash → Value → Hash) (xs : List (Bytes × Value)) (h : Hash) (name : Bytes) (ty : Ty) : Hash :=
+  match xs.lookup name with
+  | some x => hf ty h x
+  | none => h
+
+/-- generated `ComputeHash` of a record: `hash.Add(r.Included.ComputeHash())` per include (the
+embedded struct holds its share of the flattened fields `xs`), then the record's own fields. The
+recursion is over the include depth only (`g`, as in `allFields`); `hf` hashes a field value. -/
+def recHash (env : Env) (P : Params) (hf : Ty → Hash → Value → Hash) : Nat → TName → List (Bytes × Value) → Hash
+  | 0, _, _ => P.init
+  | g + 1, n, xs =>
+    match env.find n with
+    | some (.record incs own) =>
+      let h0 := incs.foldl (fun h inc => add P h (recHash env P hf g inc xs)) P.init
+      own.foldl (fun h fld => hashSlot hf xs h fld.name fld.ty) h0
+    | _ => P.init
+
+/-- generated `ComputeHash` of a named type, given how a field value is added to a running hash -/
+def namedHash (env : Env) (P : Params) (hf : Ty → Hash → Value → Hash) (n : TName) (v : Value) : Hash :=
+  match env.find n, v with
+  | some (.typeref p), v => primHash P P.init p v
+  | some (.enum syms), .enum x =>
+    if 1 ≤ x ∧ x ≤ syms.length then hashInt32 P x else zeroHash
+  | some (.fixed _), .fixed b => addBytes P P.init b
+  | some (.record _ _), .record xs => recHash env P hf (includeFuel env) n xs
+  | some (.union _ members), .union xs =>
+    members.foldl (fun h m => hashSlot hf xs h m.1 m.2) P.init
+  | _, _ => zeroHash
+
 /-- what the generated code adds to a running hash for a value of a type: primitives through
 `h.AddX`, named types through `h.Add(v.ComputeHash())`, collections through `AddArray`/`AddMap` -/
 def hashInto (env : Env) (P : Params) : Nat → Ty → Hash → Value → Hash
@@ -77,31 +99,11 @@ def hashInto (env : Env) (P : Params) : Nat → Ty → Hash → Value → Hash
     | .prim p, v => primHash P h p v
     | .arr t, .arr xs => addArray (hashInto env P f t) h xs
     | .map t, .map xs => addMap P (hashInto env P f t) h xs
-    | .ref n, v => add P h (computeHash env P f n v)
+    | .ref n, v => add P h (namedHash env P (hashInto env P f) n v)
     | _, _ => h
+
 /-- generated `ComputeHash` of a named type -/
-def computeHash (env : Env) (P : Params) : Nat → TName → Value → Hash
-  | 0, _, _ => zeroHash
-  | f + 1, n, v =>
-    match env.find n, v with
-    | some (.typeref p), v => primHash P P.init p v
-    | some (.enum syms), .enum x =>
-      if 1 ≤ x ∧ x ≤ syms.length then hashInt32 P x else zeroHash
-    | some (.fixed _), .fixed b => addBytes P P.init b
-    | some (.record incs own), .record xs =>
-      -- `hash.Add(r.Included.ComputeHash())` per include (the embedded struct holds its share of
-      -- the flattened fields), then the record's own fields
-      let h0 := incs.foldl (fun h inc => add P h (computeHash env P f inc (.record xs))) P.init
-      own.foldl (fun h fld =>
-        match xs.lookup fld.name with
-        | some x => hashInto env P f fld.ty h x
-        | none => h) h0
-    | some (.union _ members), .union xs =>
-      members.foldl (fun h m =>
-        match xs.lookup m.1 with
-        | some x => hashInto env P f m.2 h x
-        | none => h) P.init
-    | _, _ => zeroHash
-end
+def computeHash (env : Env) (P : Params) (f : Nat) (n : TName) (v : Value) : Hash :=
+  namedHash env P (hashInto env P f) n v
 
 end Restli.Codec
